@@ -11,7 +11,7 @@ import common
 import ir
 
 SPEC_VERDICTS = {0: "spec-agrees", 11: "spec-accepts/impl-rejects", 12: "spec-checked-error/impl-accepts",
-                 13: "spec-trace-differs", 14: "spec-checked-error/impl-internal", 18: "spec-fuel", 19: "spec-silent"}
+                 13: "spec-trace-differs", 14: "spec-checked-error/impl-internal", 15: "depth-is-not-critical-path-of-reference-trace", 18: "spec-fuel", 19: "spec-silent"}
 VERDICTS = {0: "agree", 1: "validate-class", 2: "unroll-class", 3: "statements", 4: "counts", 5: "depth",
             8: "fuel", 9: "unmodelled"}
 
@@ -78,6 +78,11 @@ def run_impl(src, externals=None):
             out["flat_error"] = None
         except flatsim.NotFlat as e:
             out["flat_error"] = str(e)
+        if not externals:
+            try:
+                out["depth_api"] = pyqasm.loads(src).depth()     # the public API on a fresh module
+            except Exception as e:
+                out["depth_api"] = "error:%s" % type(e).__name__
         try:
             out["dump"] = pyqasm.dumps(m2)
         except Exception as e:
@@ -95,7 +100,8 @@ def case_term(o):
     if o.get("unroll") == "ok":
         if o.get("stmts_term") is None:
             raise ir.Unconvertible(o.get("unconvertible", "?"))
-        unr = "(XOk %s %s %s %s)" % (o["stmts_term"], ir.cZ(o["nq"]), ir.cZ(o["nc"]), ir.cZ(o["depth"]))
+        d = o.get("depth_api") if isinstance(o.get("depth_api"), int) else o["depth"]
+        unr = "(XOk %s %s %s %s)" % (o["stmts_term"], ir.cZ(o["nq"]), ir.cZ(o["nc"]), ir.cZ(d))
     else:
         unr = "XValidation" if o["unroll"] == "validation" else "XInternal"
     val = "(XOk [] 0 0 0)" if o["validate"] == "ok" else ("XValidation" if o["validate"] == "validation" else "XInternal")
